@@ -201,6 +201,10 @@ def stress_trees(mb: ModelBuilder) -> list[tuple[str, AObj]]:
         ("triple_negation", NOT(NOT(NOT(A())))),
         ("imp_of_disjunctions", IMP(OR(A(), B()), OR(C(), NOT(B())))),
         ("dnf3", OR(AND(A(), B()), OR(AND(B(), C()), AND(NOT(A()), NOT(C()))))),
+        # two implications that look like the two halves of an equivalence (same operators, same operands, other grouping)
+        ("near_equivalence", AND(IMP(AND(OR(A(), B()), C()), n("D")), IMP(n("D"), AND(A(), OR(B(), C()))))),
+        ("near_equivalence_neg", AND(IMP(AND(NOT(A()), B()), C()), IMP(C(), AND(A(), NOT(B()))))),
+        ("converse_pair", AND(IMP(A(), B()), IMP(B(), A()))),
     ]
 
 
@@ -230,10 +234,173 @@ def positions_model(mb: ModelBuilder, abstract: Iterable[str], groups: bool = Tr
 
 
 def ctc_model(mb: ModelBuilder, roots: list[tuple[str, AObj]], names: Iterable[str] = ("A", "B", "C")) -> AObj:
+    from .logic import names_of
     root = mb.feature("Root")
+    names = list(names)
+    for _nm, r_ in roots:
+        for x in names_of(r_ if not isinstance(r_, tuple) else r_[1]):
+            if isinstance(x, str) and x not in names and x[:1].isalpha() and "." not in x:
+                names.append(x)
     for n in names:
         mb.relation(root, [mb.feature(n)], 0, 1)
     return mb.model(root, [mb.constraint(nm, r) for nm, r in roots])
+
+
+def large_models(mb: ModelBuilder, ops: Iterable[str], mixed: bool = True, cardinal: bool = True,
+                 negation: bool = True, rename: Optional[Callable[[str], str]] = None,
+                 ) -> list[tuple[str, AObj, str, tuple[str, ...]]]:
+    """Larger and oddly shaped members of a format's fragment: (key, model, description, owned categories).
+
+    A writer or reader with a threshold, a fixed-width field, a slice, `zip` over sequences of different length, a
+    lexicographic order of numbered things or a fast path for short inputs is right on every small model; these are
+    the models on which it is not. `mixed`: a parent may carry a group beside other relations; `cardinal`: [a..b]
+    groups other than or / alternative are in the fragment; `rename` maps the names used here into the format's
+    alphabet of names."""
+    rn = rename or (lambda x: x)
+    o = mb.op
+    F = lambda nm: mb.feature(rn(nm))  # noqa: E731
+    n = lambda *a: mb.node(rn(a[0]), *a[1:]) if isinstance(a[0], str) else mb.node(*a)  # noqa: E731
+    ops = list(ops)
+    tree = ("relation", "parent", "name", "root")
+    cc = ("constraint", "constraint-count")
+    out: list[tuple[str, AObj, str, tuple[str, ...]]] = []
+    # wide: twelve siblings; twelve-member groups; twelve relations under one parent
+    root = F("Root")
+    hosts = [F(f"H{i:02d}") for i in range(12)]
+    for i, h in enumerate(hosts):
+        mb.relation(root, [h], (i + 1) % 2, 1)
+    mb.relation(hosts[0], [F(f"Or{j:02d}") for j in range(12)], 1, 12)
+    mb.relation(hosts[1], [F(f"Alt{j:02d}") for j in range(12)], 1, 1)
+    if cardinal:
+        mb.relation(hosts[2], [F(f"Card{j:02d}") for j in range(12)], 4, 7)
+        mb.relation(hosts[4], [F(f"Pick{j:02d}") for j in range(11)], 10, 11)
+        # bounds whose texts order differently from their values ("2" > "10", "9" > "11")
+        mb.relation(hosts[5], [F(f"Two{j:02d}") for j in range(12)], 2, 10)
+        mb.relation(hosts[6], [F(f"Nine{j:02d}") for j in range(12)], 9, 11)
+    if mixed:
+        mb.relation(hosts[3], [F("m1")], 1, 1)
+        mb.relation(hosts[3], [F("g1"), F("g2"), F("g3")], 1, 3)
+        mb.relation(hosts[3], [F("o1")], 0, 1)
+        mb.relation(hosts[3], [F("x1"), F("x2")], 1, 1)
+        mb.relation(hosts[3], [F("m2")], 1, 1)
+    out.append(("wide-12", mb.model(root, []), "twelve siblings, twelve-member groups, two-digit bounds", tree))
+    # two groups of the same kind next to each other under one parent (each kind), and a parent of only such twins
+    if mixed:
+        root = F("Root")
+        tw = F("Twins")
+        mb.relation(root, [tw], 1, 1)
+        for kind_, (lo, hi, n_) in (("or", (1, 2, 2)), ("alt", (1, 1, 2)), ("mux", (0, 1, 2))) + \
+                ((("card", (2, 2, 3)),) if cardinal else ()):
+            for t_ in ("a", "b"):
+                hi_ = hi if kind_ != "or" or t_ == "a" else 3
+                mb.relation(tw, [F(f"{kind_}_{t_}{j}") for j in range(n_ if hi_ != 3 else 3)], lo, hi_)
+        mb.relation(root, [F("t1")], 0, 1)
+        mb.relation(root, [F("t2")], 0, 1)
+        mb.relation(root, [F("t3")], 1, 1)
+        mb.relation(root, [F("t4")], 1, 1)
+        out.append(("twin-groups", mb.model(root, []), "two or-, two alternative-, two mutex- (and two cardinality-) groups "
+                    "side by side under one parent", tree))
+    # deep: nine levels, then a group inside a group inside a group
+    root = F("Root")
+    cur = root
+    for i in range(1, 9):
+        nxt = F(f"L{i}")
+        mb.relation(cur, [nxt], i % 2, 1)
+        cur = nxt
+    a1, a2 = F("ga1"), F("ga2")
+    mb.relation(cur, [a1, a2], 1, 2)
+    b1, b2, b3 = F("gb1"), F("gb2"), F("gb3")
+    mb.relation(a1, [b1, b2, b3], 1, 1)
+    mb.relation(b2, [F("gc1"), F("gc2")], 1, 2)
+    mb.relation(b3, [F("tail")], 0, 1)
+    out.append(("deep-12", mb.model(root, []), "twelve levels with a group inside a group inside a group", tree))
+    # many constraints, long and deep constraints
+    root = F("Root")
+    vs = [f"V{i:02d}" for i in range(12)]
+    for v in vs:
+        mb.relation(root, [F(v)], 0, 1)
+    ctcs = [mb.constraint(f"k{i:02d}", n(o(ops[i % len(ops)]), n("V00"), n(vs[i]))) for i in range(1, 12)]
+    conj = n(vs[0])
+    for v in vs[1:6]:
+        conj = n(o("AND"), conj, n(v))                        # left-nested, six operands
+    disj = n(vs[11])
+    for v in reversed(vs[6:11]):
+        disj = n(o("OR"), n(v), disj)                         # right-nested, six operands
+    ctcs.append(mb.constraint("k12", n(o("IMPLIES"), conj, disj)))
+    deepc = n(vs[5])
+    for i, op in enumerate((ops * 3)[:5]):
+        other = n(o("NOT"), n(vs[i])) if negation and i % 2 else n(vs[i])
+        deepc = n(o(op), other, deepc) if i % 2 else n(o(op), deepc, other)   # nesting depth five, alternating sides
+    ctcs.append(mb.constraint("k13", deepc))
+    out.append(("many-constraints", mb.model(root, ctcs),
+                "thirteen constraints, one feature in eleven of them, six-operand chains, nesting depth five", cc))
+    # long names sharing a long prefix
+    stem = "Component_" + "abcdefghij" * 4
+    root = F("Root")
+    la, lb = F(stem + "_A"), F(stem + "_B")
+    mb.relation(root, [la], 0, 1)
+    mb.relation(root, [lb], 0, 1)
+    mb.relation(la, [F(stem + "_A_child")], 1, 1)
+    ctc = mb.constraint("long", n(o(ops[0]), n(stem + "_A"), n(stem + "_B")))
+    out.append(("long-names", mb.model(root, [ctc]), "names of 52 characters that share a 50-character prefix",
+                tree + cc))
+    return out
+
+
+def export_models(mb: ModelBuilder, ops: Iterable[str], mixed: bool = True) -> list[tuple[str, AObj, str]]:
+    """Larger members of the family for the checks that enumerate all 2^n selections (n <= 13): a seven-member [3..5]
+    group, eleven siblings, five relations of different kinds under one parent, six levels, nine constraints with a
+    six-operand chain and nesting depth four."""
+    F, n, o = mb.feature, mb.node, mb.op
+    ops = list(ops)
+    out: list[tuple[str, AObj, str]] = []
+    root = F("Root")
+    host = F("Host")
+    mb.relation(root, [host], 0, 1)
+    mb.relation(host, [F(f"m{j}") for j in range(7)], 3, 5)
+    mb.relation(root, [F("Side")], 0, 1)
+    mb.relation(root, [F("Must")], 1, 1)
+    out.append(("group-7-of-3..5", mb.model(root, []), "a seven-member [3..5] group under an optional feature"))
+    root = F("Root")
+    for i in range(11):
+        mb.relation(root, [F(f"s{i:02d}")], 1 if i in (0, 9, 10) else 0, 1)
+    out.append(("eleven-siblings", mb.model(root, []), "eleven single children, the tenth and eleventh mandatory"))
+    if mixed:
+        root = F("Root")
+        par = F("Par")
+        mb.relation(root, [par], 0, 1)
+        mb.relation(par, [F("pm")], 1, 1)
+        mb.relation(par, [F("po")], 0, 1)
+        mb.relation(par, [F("or1"), F("or2")], 1, 2)
+        mb.relation(par, [F("x1"), F("x2")], 1, 1)
+        mb.relation(par, [F("c1"), F("c2"), F("c3")], 2, 2)
+        out.append(("five-relations", mb.model(root, []), "five relations of different kinds under one optional parent"))
+    root = F("Root")
+    cur = root
+    for i in range(1, 10):
+        nxt = F(f"L{i}")
+        mb.relation(cur, [nxt], 0 if i in (2, 9) else 1, 1)
+        cur = nxt
+    g1, g2 = F("g1"), F("g2")
+    mb.relation(cur, [g1, g2], 1, 1)
+    mb.relation(g2, [F("h1"), F("h2")], 1, 2)
+    out.append(("twelve-levels", mb.model(root, []), "twelve levels, an or-group inside an alternative group at the bottom"))
+    root = F("Root")
+    vs = [f"V{i}" for i in range(8)]
+    for v in vs:
+        mb.relation(root, [F(v)], 0, 1)
+    ctcs = [mb.constraint(f"k{i}", n(o(ops[i % len(ops)]), n("V0"), n(vs[i]))) for i in range(1, 8)]
+    conj = n(vs[0])
+    for v in vs[1:6]:
+        conj = n(o("AND"), conj, n(v))
+    ctcs.append(mb.constraint("k8", n(o("IMPLIES"), conj, n(o("OR"), n(vs[6]), n(vs[7])))))
+    deepc = n(vs[7])
+    for i, op in enumerate((ops * 2)[:4]):
+        other = n(o("NOT"), n(vs[i])) if i % 2 else n(vs[i])
+        deepc = n(o(op), other, deepc) if i % 2 else n(o(op), deepc, other)
+    ctcs.append(mb.constraint("k9", deepc))
+    out.append(("nine-constraints", mb.model(root, ctcs), "nine constraints, a six-operand chain, nesting depth four"))
+    return out
 
 
 class Codec:
@@ -338,6 +505,10 @@ class Codec:
             m = model_of([a, b]) if model_of else kind_model(mb, [a, b])
             self.report(rule, f"kind-pair:{kind(a)}:{a}+{kind(b)}:{b}", self.roundtrip(m),
                         f"relations {a} and {b} under one parent", ("relation", "parent", "name"))
+
+    def large(self, mb: ModelBuilder, ops: Iterable[str], rule: str = "LARGE", **kw: Any) -> None:
+        for key, m, what, owns in large_models(mb, ops, **kw):
+            self.report(rule, key, self.roundtrip(m), what, owns)
 
     def finish_unowned(self) -> None:
         for c, t in sorted(self.unowned.items()):
